@@ -114,9 +114,12 @@ def run_case(case, ctx):
     cls = case["c"]
     probs = []
 
+    clean = {}
+
     def run(text):
         r = C.api(ctx, text, ts)
         norm = mon.case_norm if mon.case_norm is not None else ""
+        clean[id(r)] = D.strip_labels(norm)     # the normalised text without its labels: what character spans refer to
         return r, (mon.case_search_text if mon.case_search_text is not None else D.strip_labels(norm)), list(mon.case_matches), \
             (set(mon.prov.get(id(r.resolution), set())) if r is not None and r.resolution is not None else None)
 
@@ -145,6 +148,14 @@ def run_case(case, ctx):
         except Exception:
             eq0 = False
         probs.append((("beam-truncation/" if eq0 else "") + "hashtags-change-resolution", "with hashtags %s, without %s" % (V.show(C.resv(r_full)), V.show(C.resv(r_not)))))
+    elif r_full.resolution is not None:
+        # ... nor the characters its span delimits (C09's span clause, with labels in the text: offsets refer to the
+        # normalised text with the labels cut out and the blanks they leave behind collapsed)
+        cf = clean[id(r_full)][r_full.resolution.mstart:r_full.resolution.mend]
+        cn = clean[id(r_not)][r_not.resolution.mstart:r_not.resolution.mend]
+        mon.events["span_with_hashtags_compared"] += 1
+        if cf != cn:
+            probs.append(("hashtags-shift-span", "span %s delimits %r with the hashtags, %r without them" % ((r_full.resolution.mstart, r_full.resolution.mend), cf, cn)))
     if r_full.subject != r_not.subject:
         probs.append(("hashtags-change-subject" + ("/no-match-path" if r_full.resolution is None else ""), "with hashtags %r, without %r" % (r_full.subject, r_not.subject)))
     if r_noe.subject != r_none.subject:
